@@ -44,8 +44,11 @@ def classify(sig, e, events, line, rej=None):
     nshards = len({r["shard"] for r in cor["repos"]}) if cor else 1
     if sig in ("C22:not-ranked-prefix", "C22:file-not-prefix", "C22:stopped-early") and e["ev"] == "display":
         if e.get("flush"):
-            # StreamSearch with FlushWallTime: collected and ranked before the truncation (not the recorded C22-F2 path)
-            return sig + ":stream-flush"
+            # StreamSearch with FlushWallTime: collected and ranked before the truncation.  With a document
+            # limit alone the collector's truncation of partial aggregates is harmless (the top D of a union
+            # is the top D of the partial top D and the rest), so the reply must be the ranked prefix.  With a
+            # match limit the collector cuts matches of a file in a partial aggregate (recorded: C22-F2).
+            return sig + (":stream-flush-matchlimit" if e["maxmatch"] > 0 and nshards > 1 else ":stream-flush")
         return sig + (":multi-shard" if nshards > 1 else ":single-shard")
     if sig == "C22:chunk" and e["ev"] == "display" and e["maxmatch"] > 0:
         # Shapes of the two recorded defects of limitChunkMatches (anything else stays a new violation):
